@@ -88,6 +88,7 @@ var CommoditySpecs = []symSpec{
 	{"hours-right", "hours", false, SideRight, 1},
 	{"quoted-right", "green apples", true, SideRight, 1},
 	{"quoted-left", "ACME Inc.", true, SideLeft, 1},
+	{"quoted-nonbmp-right", "🍎 share", true, SideRight, 1},
 	{"none", "", false, SideNone, 0},
 	{"rub-right-nogap", "₽", false, SideRight, 0},
 	{"USD-right-nogap", "USD", false, SideRight, 0},
@@ -96,7 +97,7 @@ var CommoditySpecs = []symSpec{
 
 var DescShapes = []string{"Capitalised Words", "ALLCAPS", "7leading digit", "with:colon", "pay $5", "a=b", "naïve café", "🍕 pizza", "two  spaces"}
 var NoteShapes = []string{"NOTE", "x:y", "ñ", "second note 7"}
-var AccountShapes = []string{"assets:bank account", "a:b2", "Assets:Cash", "расходы:еда", "expenses:🍕", "expenses:food:fruit:apple", "income:salary 2001"}
+var AccountShapes = []string{"assets:bank account", "a:b2", "Assets:Cash", "расходы:еда", "expenses:🍕", "expenses:food:fruit:apple", "income:salary 2001", "credit card:visa"}
 
 func strp(s string) *string { return &s }
 
@@ -256,6 +257,7 @@ func Deviations() []Dev {
 		"date-tag":            {Text: " date:2001-01-09", Tags: []Tag{{"date", "2001-01-09"}}},
 		"tag-words":           {Text: " Tag-1:two words, t_2:é", Tags: []Tag{{"Tag-1", "two words"}, {"t_2", "é"}}},
 		"nonbmp-tags":         {Text: " trip:🍕 pizza, k2:v", Tags: []Tag{{"trip", "🍕 pizza"}, {"k2", "v"}}},
+		"nonbmp-before-tags":  {Text: " 🎉 fun, trip:paris, k2:v", Tags: []Tag{{"trip", "paris"}, {"k2", "v"}}},
 	}
 	for _, k := range sortedKeys(hc) {
 		c := hc[k]
@@ -433,6 +435,7 @@ func Deviations() []Dev {
 		"nonascii-before-tag": {Text: " é t:v", Tags: []Tag{{"t", "v"}}},
 		"three-tags":          {Text: " x:1, y:, z:two words", Tags: []Tag{{"x", "1"}, {"y", ""}, {"z", "two words"}}},
 		"nonbmp-tags":         {Text: " trip:🍕 pizza, k2:v", Tags: []Tag{{"trip", "🍕 pizza"}, {"k2", "v"}}},
+		"nonbmp-before-tags":  {Text: " 🎉 fun, trip:paris, k2:v", Tags: []Tag{{"trip", "paris"}, {"k2", "v"}}},
 	}
 	for _, k := range sortedKeys(pc) {
 		c := pc[k]
